@@ -105,6 +105,8 @@ let check_signals (evs : ev array) : string option * string option =
   let cur_op = Hashtbl.create 8 in
   let err = ref None in
   let site_err = ref None in
+  let duration : (int, int) Hashtbl.t = Hashtbl.create 8 in
+  let deadline : (int, int) Hashtbl.t = Hashtbl.create 8 in
   let fail i n e why =
     if !err = None then
       err := Some (Printf.sprintf "step=%d thread=%d signal=S%d event=%s src=%s: %s" evs.(i).step evs.(i).tid n (str_sev e) evs.(i).src why) in
@@ -161,7 +163,18 @@ let check_signals (evs : ev array) : string option * string option =
   Array.iteri (fun i e ->
       if !err = None then begin
         (match e.kind with
-         | "OPB" -> Hashtbl.replace cur_op e.tid (match e.note with o :: _ -> o | [] -> "")
+         | "OPB" ->
+           Hashtbl.replace cur_op e.tid (match e.note with o :: _ -> o | [] -> "");
+           (* the duration of a timed call; its deadline is the first clock reading of the call plus it *)
+           Hashtbl.remove deadline e.tid;
+           (match e.note with
+            | ("sendto" | "sendoptto") :: _ :: d :: _ | "recvto" :: d :: _ ->
+              (match int_of_string_opt d with Some d -> Hashtbl.replace duration e.tid d | None -> Hashtbl.remove duration e.tid)
+            | _ -> Hashtbl.remove duration e.tid)
+         | "NOW" ->
+           (match Hashtbl.find_opt duration e.tid, Hashtbl.find_opt deadline e.tid with
+            | Some d, None -> Hashtbl.replace deadline e.tid (e.res + d)
+            | _ -> ())
          | _ -> ());
         let sid = sig_id e.loc in
         (match sid with Some n -> Hashtbl.replace last_sig e.tid n | None -> ());
@@ -218,7 +231,21 @@ let check_signals (evs : ev array) : string option * string option =
         | "PARK", _, _ -> (match ls with Some n when is_owner n -> apply i n (EPark (e.res = 1)) ~optional:false | _ -> ())
         | "UNPARK", _, _ -> (match ls with Some n -> apply i n EUnpark ~optional:false | None -> ())
         | "WAKE", _, _ -> (match ls with Some n -> apply i n EWakeCall ~optional:false | None -> ())
-        | ("YIELD" | "SLEEP" | "NOW"), _, _ -> (match ls with Some n when is_owner n -> apply i n EPause ~optional:true | _ -> ())
+        | "NOW", _, _ ->
+          (match ls with
+           | Some n when is_owner n ->
+             (* a clock reading at or past the deadline: the timed loop is left here, the final load comes next *)
+             let past = match Hashtbl.find_opt deadline e.tid with Some dl -> e.res >= dl | None -> false in
+             (match Hashtbl.find_opt sigs n with
+              | Some r when past && r.st.s_o = OTimed && not r.dead ->
+                (match sstep r.st EDeadline with
+                 | Some s1 ->
+                   Hashtbl.replace covered (Printf.sprintf "%s/%s/%s/Deadline" (fl_name r.st) (str_opc r.st.s_o) (str_cpc r.st.s_c)) ();
+                   r.st <- s1
+                 | None -> ())
+              | _ -> apply i n EPause ~optional:true)
+           | _ -> ())
+        | ("YIELD" | "SLEEP"), _, _ -> (match ls with Some n when is_owner n -> apply i n EPause ~optional:true | _ -> ())
         | _ -> ()
       end) evs;
   (!err, !site_err)
